@@ -12,7 +12,7 @@ import (
 
 // Encode/decode steps are not dropped. Every value that crosses the store or the wire goes through an amino
 // (Must)Marshal* / (Must)Unmarshal* call; pinned_codec_calls.json records, per repo function, how many such calls
-// of each kind it makes (`pv -dump codeccalls`). RCD1: a function still makes (at least) the decode/encode calls it
+// of each kind it makes (`pv -dump codeccalls`; MustX and X count as the same kind). RCD1: a function still makes (at least) the decode/encode calls it
 // made on the pinned tree — a deleted Unmarshal leaves the caller with a zero value that looks like data (an empty
 // unstaking queue slot, an all-false missed-block window, a zero signing info). Helpers introduced by a refactoring
 // stand for their callers.
@@ -41,7 +41,7 @@ func (P *Prog) codecCalls() map[string]map[string]int {
 			if !isCodecCall(name) {
 				return
 			}
-			kind := name[strings.LastIndex(name, ".")+1:]
+			kind := strings.TrimPrefix(name[strings.LastIndex(name, ".")+1:], "Must") // Must* and its error-returning twin are one kind
 			for _, pf := range P.pinnedCallersOf(f) {
 				n := short(enclosingTop(pf).String())
 				if out[n] == nil {
